@@ -8,12 +8,7 @@ import sys
 HERE = os.path.dirname(os.path.dirname(os.path.abspath(__file__)))
 sys.path.insert(0, HERE)
 
-NOT_APPLICABLE = {
-    'C11': 'Not decided by static analysis: the mechanisms are row arithmetic (how many carried rows rolling_accumulator '
-           'keeps and drops, the seed row of _cumulative_accumulator, the EWMean recurrence). Deciding them needs symbolic '
-           'length/recurrence reasoning (the solver family); any normal-form oracle for slice bounds would be a frozen '
-           'source fragment, because several different bounds are all correct. See DESIGN.md section 7.',
-}
+NOT_APPLICABLE = {}
 PENDING = 'check under construction in this session (see DESIGN.md); not claimed yet'
 
 
